@@ -10,9 +10,9 @@ def run(rep: Report, tier: str, only=None) -> None:
 	t = 3000 if thorough else 280
 	jobs: list[Job] = []
 	func = 'history4' if thorough else 'history3'
-	# thorough: 4 operations, first one restricted to the 20 operations that change c0 / c1 or combine them (an operation on the
+	# thorough: 4 operations, first one restricted to 16 operations that change c0 / c1 or combine them (an operation on the
 	# not yet existing combined container, or an invoke, as the very first step adds nothing over the 3-operation tier)
-	firsts = [o for o in range(NOPS) if o in (0, 1, 2, 3, 4, 5, 6, 7, 12, 13, 14, 15, 18, 19, 20, 21, 24, 25, 26, 32)] if thorough else list(range(NOPS))
+	firsts = [o for o in range(NOPS) if o in (0, 1, 2, 3, 4, 5, 7, 12, 13, 14, 18, 19, 20, 24, 25, 26)] if thorough else list(range(NOPS))
 	for o1 in firsts:
 		jobs.append(Job('O2.history', H, func, {'o1': o1}, t, 'F', f'all histories of {4 if thorough else 3} operations over {NOPS} operation codes (first operation fixed per process), then a full observation sweep', ('combine', 'rebind', 'invoke_ok', 'invoke_rejected', 'resolve_rejected')))
 	if only:
